@@ -12,6 +12,8 @@
 import LiteFSVerif.Proofs.Image
 import LiteFSVerif.Model.Recovery
 import LiteFSVerif.Proofs.RecoveryPos
+import LiteFSVerif.Gen.Skel
+import LiteFSVerif.Model.ExpectedSkel
 
 set_option linter.unusedSimpArgs false
 
@@ -153,5 +155,16 @@ theorem C05_open_position_is_newest_of_own_log (d s : Engine.Eng) (h : Recovery.
     s.posTxid = f.maxTxid ∧ s.posChk = f.post := by
   rw [(Recovery.openDB_frame d s h).1] at hf
   exact Recovery.openDB_position d s h f hf
+
+/-- the control skeletons (branch conditions, loop heads, returns, order of calls and of state
+    assignments) of `DB.recover`, `DB.rollbackJournal`, `DB.maxLTXFile`, `DB.CheckpointNoLock`, regenerated from the current source on every run, are the ones the
+    model was written and validated against (Model/ExpectedSkel.lean): a reordered, dropped or
+    altered check or call in these functions breaks this theorem -/
+theorem C05_source_skeletons :
+    Gen.Skel.DB_recover = Expected.Skel.DB_recover ∧
+    Gen.Skel.DB_rollbackJournal = Expected.Skel.DB_rollbackJournal ∧
+    Gen.Skel.DB_maxLTXFile = Expected.Skel.DB_maxLTXFile ∧
+    Gen.Skel.DB_CheckpointNoLock = Expected.Skel.DB_CheckpointNoLock :=
+  ⟨rfl, rfl, rfl, rfl⟩
 
 end LiteFSVerif.C05
